@@ -63,8 +63,35 @@ def well_formed(ttn):
     return None
 
 
-def dense_by_tokens(ttn, tokens):
-    """full contraction (einsum on a copy); open legs ordered by their tokens"""
+def dense_pairwise(cp, tokens):
+    """full contraction without einsum (no limit on the number of legs): every subtree is contracted into
+    its parent with np.tensordot over the one bond they share; open legs ordered by their tokens"""
+    nodes = cp.nodes
+
+    def sub(k):
+        n = nodes[k]
+        t = np.asarray(cp.tensors[k])
+        labels = ([("e", n.parent, k)] if n.parent is not None else []) + [("e", k, c) for c in n.children]
+        toks = tokens[k]
+        if len(labels) + len(toks) != t.ndim:
+            raise ValueError(f"{k}: {t.ndim} legs but {len(labels)} neighbours and {len(toks)} tracked open legs")
+        labels = labels + [("o", tk) for tk in toks]
+        for c in n.children:
+            tc, lc = sub(c)
+            pos = labels.index(("e", k, c))
+            if lc[0] != ("e", k, c):
+                raise ValueError(f"{c}: first leg is not the leg to its parent {k}")
+            t = np.tensordot(t, tc, axes=([pos], [0]))
+            labels = labels[:pos] + labels[pos + 1:] + lc[1:]
+        return t, labels
+    t, labels = sub(cp.root_id)
+    want = [("o", tk) for tk in sorted(x[1] for x in labels)]
+    return t.transpose([labels.index(x) for x in want]) if want else t
+
+
+def dense_by_tokens(ttn, tokens, big=False):
+    """full contraction (einsum on a copy); open legs ordered by their tokens (big=True: networks with
+    more than 52 bonds + open legs are contracted pairwise instead of being skipped)"""
     cp = copy.deepcopy(ttn)
     lab = {}
 
@@ -90,7 +117,7 @@ def dense_by_tokens(ttn, tokens):
         args += [t, sub]
     out = [L(("o", tk)) for tk in sorted(alltok)]
     if len(lab) > 52:
-        return None
+        return dense_pairwise(cp, tokens) if big else None
     return np.einsum(*args, out, optimize=True)
 
 
@@ -144,7 +171,7 @@ def run_query(ttn, op):
     return None
 
 
-def reference_full_contraction(ttn, max_size=2 ** 16):
+def reference_full_contraction(ttn, max_size=2 ** 18):
     """Independent dense reference for the library's own full contraction: einsum over the STORED arrays
     brought into (parent, children, open) order by the node's pending permutation (no access through the
     library, so the live network is not touched). The documented result: the open legs of the nodes in
@@ -273,15 +300,51 @@ def gen_build_on(rng, parents, open_dims, bond, shuffle=True):
     return ops
 
 
-def gen_edit(rng, snap, fresh, malformed=False, queries=False):
+def balanced_partition(rng, node):
+    """a partition of the legs of `node` (a snapshot entry) into two parts whose matricisation is as square
+    as possible: all partitions of (children, open legs) are enumerated (at most 4096, else sampled), the
+    parent leg stays with the first part; one of those with min(rows, cols) > 100 is drawn at random if
+    there is any, else one of those within a factor 2 of the best. Returns (children, open) of both parts,
+    each in random order."""
+    _, par, ch, perm, shape, _ = node
+    cur = [shape[x] for x in perm]
+    nvirt = (par is not None) + len(ch)
+    legs = [("c", c, cur[(par is not None) + j]) for j, c in enumerate(ch)] + [("o", j, cur[j]) for j in range(nvirt, len(perm))]
+    base = cur[0] if par is not None else 1
+    nl = len(legs)
+    masks = range(2 ** nl) if nl <= 12 else [rng.getrandbits(nl) for _ in range(4096)]
+    scored = []
+    for m in masks:
+        a, b = base, 1
+        for j, l in enumerate(legs):
+            if (m >> j) & 1:
+                a *= l[2]
+            else:
+                b *= l[2]
+        scored.append((min(a, b), m))
+    best = max(x[0] for x in scored)
+    pool = [m for sc, m in scored if sc > 100] or [m for sc, m in scored if 2 * sc >= best]
+    m = rng.choice(pool)
+    first = [l for j, l in enumerate(legs) if (m >> j) & 1]
+    second = [l for j, l in enumerate(legs) if not (m >> j) & 1]
+    rng.shuffle(first)
+    rng.shuffle(second)
+    part = lambda ls: ([l[1] for l in ls if l[0] == "c"], [l[1] for l in ls if l[0] == "o"])
+    return part(first), part(second)
+
+
+def gen_edit(rng, snap, fresh, malformed=False, queries=False, balanced=0.0, kinds=None, split_kind=None):
     """one edit op generated from the current observable structure (queries=True: also read-only
-    ["query", node, scope] operations, which only C02 executes)"""
+    ["query", node, scope] operations, which only C02 executes; balanced = probability that a split takes
+    the LARGEST node and a near-square partition of its legs, see balanced_partition; kinds / split_kind
+    restrict the operation kind / the split kind)"""
     nodes = {n[0]: n for n in snap["nodes"]}
     ids = list(nodes)
     edges = [(n[1], n[0]) for n in snap["nodes"] if n[1] is not None]
-    kinds = ["contract"] * 4 + ["split"] * 5 + ["insert_identity", "rename", "replace_tensor", "access", "access"]
-    if queries:
-        kinds = kinds + ["query"] * 4
+    if kinds is None:
+        kinds = ["contract"] * 4 + ["split"] * 5 + ["insert_identity", "rename", "replace_tensor", "access", "access"]
+        if queries:
+            kinds = kinds + ["query"] * 4
     k = rng.choice(kinds)
     if k == "query":
         return ["query", rng.choice(ids), rng.choice(["node", "node", "all", "contract"])]
@@ -309,11 +372,22 @@ def gen_edit(rng, snap, fresh, malformed=False, queries=False):
         o = {"parent": None, "children": chs[:co], "open": opens[:oo], "root": False}
         i = {"parent": None, "children": chs[co:], "open": opens[oo:], "root": False}
         top = o if rng.random() < 0.5 else i
+        if balanced and not malformed and rng.random() < balanced:
+            n = max(ids, key=lambda x: int(np.prod(nodes[x][4])) if nodes[x][4] else 1)
+            _, par, ch, perm, shape, _ = nodes[n]
+            (c1, o1), (c2, o2) = balanced_partition(rng, nodes[n])
+            o = {"parent": None, "children": c1, "open": o1, "root": False}
+            i = {"parent": None, "children": c2, "open": o2, "root": False}
+            top = o
+            if rng.random() < 0.5:
+                o, i = i, o
         if par is not None:
             top["parent"] = par
         else:
             top["root"] = True
         kind = rng.choice([0, 0, 0, 1, 2])
+        if split_kind is not None:
+            kind = split_kind
         mode = rng.choice(["reduced", "full", "keep"]) if kind == 0 else "reduced"
         nin = len(i["children"]) + len(i["open"]) + (i["parent"] is not None)
         if kind == 0 and mode == "keep" and nin == 0:
@@ -352,6 +426,8 @@ def gen_edit(rng, snap, fresh, malformed=False, queries=False):
         bond = min(m_, n_) + rng.choice([0, 0, 1])
         if kind == 0 and mode == "full" and m_ > 256:
             mode = "reduced"      # a complete QR of an m x m matrix with m in the thousands is a memory test, not a structural one
+        if kind == 0 and mode == "keep" and n_ > 1024:
+            mode = "reduced"      # likewise: 'keep' makes the new bond as large as ALL the legs of the second part together (rows x n_ zero-padded factor)
         if malformed:
             which = rng.randrange(3)
             if which == 0 and opens:
@@ -381,6 +457,68 @@ def gen_edit(rng, snap, fresh, malformed=False, queries=False):
             return ["replace_tensor", n, list(range(nl)), None]
         return ["replace_tensor", n, q, inv]
     return ["access", rng.choice(ids)]
+
+
+def gen_large_build(rng, flavour, thorough=False):
+    """LARGE members of the tree / shape families (the property quantifies over all trees and all nodes;
+    shortcuts taken only above a size threshold are not reached by legs of dimension 1-3 on 1-7 nodes):
+    `bond`  = 1-3 nodes, one of them with open legs that can be divided into two groups of total dimension
+              101..300 each (thorough: ..500): either one leg of that dimension or several legs of dimension
+              2..16, or four equal legs of dimension 11..14; a near-square split of it creates a bond > 100;
+    `nodes` = 12-30 nodes (thorough: -48), bushy or chain-like, legs of dimension 1-3, total open dimension <= 2^12;
+    `legs`  = 2-6 nodes around a hub with 2-5 children and 4-8 open legs (up to 14 legs on one node).
+    Returns the add_root/add_child operations."""
+    prod = lambda l: int(np.prod(l)) if l else 1
+    if flavour == "bond":
+        nn = rng.choice([1, 2, 2, 3])
+        parents = [None] + [rng.randrange(0, i) for i in range(1, nn)]
+        big = rng.randrange(nn)
+        open_dims = [[rng.choice((1, 2)) for _ in range(rng.choice((0, 1)))] for _ in range(nn)]
+        bond = {i: rng.choice((1, 2, 2, 3)) for i in range(1, nn)}
+        hi, cap = (501, 250000) if thorough else (301, 120000)
+        while True:
+            if rng.random() < 0.25:
+                d = rng.randrange(11, 15)
+                alld = [d] * 4
+            else:
+                alld = []
+                for _ in range(2):
+                    target = rng.choice([rng.randrange(101, hi), rng.randrange(101, 140), rng.choice([101, 127, 128, 129, 255, 256, 257])])
+                    if rng.random() < 0.4:
+                        ds = [target]
+                    else:
+                        ds = []
+                        while prod(ds) < target:
+                            ds.append(rng.randrange(2, 17))
+                    alld += ds
+            if prod(alld) <= cap and len(alld) <= 7:
+                break
+        rng.shuffle(alld)
+        open_dims[big] = alld
+    elif flavour == "nodes":
+        nn = rng.randrange(12, 49 if thorough else 31)
+        chain = rng.random() < 0.35
+        parents = [None] + [(max(0, i - 1 - rng.choice([0, 0, 0, 1])) if chain else rng.randrange(0, i)) for i in range(1, nn)]
+        open_dims = [[] for _ in range(nn)]
+        total = 1
+        for _ in range(2 * nn):
+            d = rng.choice((1, 2, 2, 3))
+            if total * d <= 2 ** 12:
+                open_dims[rng.randrange(nn)].append(d)
+                total *= d
+        bond = {i: rng.choice((1, 2, 2, 3)) for i in range(1, nn)}
+    else:
+        nn = rng.randrange(3, 7)
+        hub = rng.randrange(0, 2)
+        parents = [None] + [(hub if (i > hub and (i <= hub + 2 or rng.random() < 0.7)) else rng.randrange(0, i)) for i in range(1, nn)]
+        open_dims = [[rng.choice((1, 2)) for _ in range(rng.choice((0, 1, 1)))] for _ in range(nn)]
+        bond = {i: rng.choice((1, 2, 2, 3)) for i in range(1, nn)}
+        while True:
+            od = [rng.choice((1, 2, 2, 3)) for _ in range(rng.randrange(4, 9))]
+            if prod(od) <= 2 ** 12:
+                break
+        open_dims[hub] = od
+    return gen_build_on(rng, parents, open_dims, bond)
 
 
 def applicable(op, snap):
@@ -447,6 +585,8 @@ def applicable(op, snap):
                 return False
             if kind == 0 and mode == "full" and m_ > 256:
                 return False
+            if kind == 0 and mode == "keep" and n_ > 1024:
+                return False
             return True
         return k in ("add_root", "add_child")
     except Exception:  # noqa
@@ -469,7 +609,7 @@ def failure_kind(what):
 
 class C02(Prop):
     id = "C02"
-    rule = ("random trees (1-7 nodes) built with shuffled leg orders and 0/1/2+ open legs, then 1-12 random edit operations "
+    rule = ("random trees (1-7 nodes; LARGE members see below) built with shuffled leg orders and 0/1/2+ open legs, then 1-12 random edit operations "
             "(contract with fresh/reused/default identifier, QR split in three modes, untruncated SVD split, explicit replacement, "
             "identity insertion, rename, tensor replacement with a permutation, plain access) generated from the observed structure, "
             "plus a malformed stream both sides must reject; non-trivial = at least two nodes and two accepted edit operations. "
@@ -483,10 +623,20 @@ class C02(Prop):
             "`collapse`) = the library's OWN full contraction of the LIVE network (completely_contract_tree: method and module function, to_copy=True on the "
             "network itself and in place on a deep copy, asked twice), whatever leg permutations are still pending on its nodes, judged against a dense einsum "
             "over the STORED arrays in (parent, children, open) order with the open legs in depth-first node order and against the depth-first contraction "
-            "order (tolerance relative to the largest entry; skipped above 2^16 entries); `collapse` = after the random edits the history goes on contracting "
+            "order (tolerance relative to the largest entry; skipped above 2^18 entries); `collapse` = after the random edits the history goes on contracting "
             "random bonds (operands in either order, fresh / reused / default identifier) until ONE node is left (skipped above 2^14 entries), asking the full "
             "contraction on the way and on the one-node network - there also right after a tensor replacement with a random permutation, and again after a "
-            "plain access (distribution: `query:contract one node / 2+ nodes, permutation pending / none pending`). The shrinker only drops operations when every remaining one is "
+            "plain access (distribution: `query:contract one node / 2+ nodes, permutation pending / none pending`). LARGE members (`large`, 6 cases per quick run "
+            "spread over the run, 60 per thorough run; distribution `large:bond / nodes / legs`, same case format, so the model tie covers them): `bond` = 1-3 nodes, one of "
+            "them with open legs that divide into two groups of total dimension 101..300 each (thorough ..500; one leg of that dimension, several legs of "
+            "dimension 2..16, or four equal legs of dimension 11..14; thresholds 101/127/128/129/255/256/257 over-represented; up to 1.2e5 entries, thorough 2.5e5); "
+            "`nodes` = 12-30 nodes (thorough -48), bushy or chain-like; `legs` = a hub with 2-5 children and 4-8 open legs (up to 14 legs on one node). Every large "
+            "case starts with round trips on its LARGEST node: a near-square split (all partitions of children and open legs enumerated, one with min(rows, cols) > 100 "
+            "drawn if there is any) by each of the three split kinds in random order - QR, untruncated SVD (max_bond_dim=inf, tolerances -inf), explicit replacement - "
+            "contracted back in between (operands in either order, any identifier choice), then with probability 1/2 each an identity insertion on the new bond and a "
+            "tensor replacement with a permutation at one of its ends; the random edits that follow split the largest node near-square with probability 1/2 "
+            "(distribution `split:QR/SVD/replace new bond 101..256 / >256`). The dense oracle contracts networks with more than 52 bonds + open legs pairwise "
+            "(np.tensordot, leaves upwards) instead of skipping them. The shrinker only drops operations when every remaining one is "
             "still documented-valid where it is applied and the failure stays of the same class.")
     clauses = [
         ("F", "store invariant wfb (one root, symmetric links, equal key sets, permutations, recorded shapes = raw tensor dims, edge-wire consistency, "
@@ -514,7 +664,8 @@ class C02(Prop):
               "in-range restriction of the conclusion is necessary (C02_example_in_range_needed)"),
         ("I", "per explored sequence: ops_okb (the theorems' preconditions), wfb and the extended invariant wfsb (atom tables closed, bound wires private) "
               "on every reachable state, by vm_compute"),
-        ("O", "kernel factors (QR/SVD/explicit) are fresh atoms whose product over the new bond equals the input; validated numerically through the dense oracle"),
+        ("O", "kernel factors (QR/SVD/explicit) are fresh atoms whose product over the new bond equals the input; validated numerically through the dense oracle, "
+              "also for new bonds of dimension 101..300 (thorough ..500) by every split kind (an 'untruncated' SVD must keep ALL min(rows, cols) singular values, as the model's bond dimension says)"),
         ("V", "model = code: exact step-by-step correspondence (structure, dict orders, leg permutations, shapes, every tensor against its diagram)"),
         ("V", "the library's own full contraction (completely_contract_tree, every public route) of the live network - one node or many, with or without pending "
               "leg permutations - equals the dense contraction of the stored tensors with the open legs in depth-first node order, returns the depth-first order "
@@ -538,6 +689,16 @@ class C02(Prop):
                           # history / configuration families (absent = off, as in older replay files)
                           "queries": j % 2 == 1, "recycle": j % 4 in (1, 2), "exchange": j % 4 == 3 or j % 8 == 1,
                           "mixed": j % 8 in (0, 5), "collapse": j % 5 == 2})
+        # LARGE members (see gen_large_build): a few per run, more and larger ones in the thorough tier
+        nl = ctx.scale(6, 60) * budget_scale
+        step = max(1, len(cases) // nl)
+        for j in range(nl):
+            fl = ("bond", "nodes", "legs", "bond", "legs", "bond")[j % 6] if ctx.thorough() else ("bond", "nodes", "legs")[j % 3]
+            # spread over the run (the model evaluates contiguous blocks of cases in parallel)
+            cases.insert(min(len(cases), j * (step + 1) + step // 2), {"seed": rng.randrange(10 ** 9), "nnodes": 2, "nedits": rng.randrange(2, 9), "malformed": False,
+                          "ints": j % 2 == 0, "large": fl, "thorough": ctx.thorough(),
+                          "queries": j % 2 == 0, "recycle": j % 4 == 1, "exchange": j % 6 == 5, "mixed": j % 4 == 3,
+                          "collapse": (fl == "legs" or (fl == "nodes" and ctx.thorough())) and j % 2 == 1})
         return cases
 
     def nontrivial(self, case):
@@ -546,9 +707,12 @@ class C02(Prop):
     def distribution(self, cases):
         c = Counter()
         for x in cases:
-            c[f"nodes={x['nnodes']}"] += 1
+            if x.get("large"):
+                c["large:" + x["large"]] += 1
+            else:
+                c[f"nodes={x['nnodes']}"] += 1
             c["malformed" if x["malformed"] else "valid"] += 1
-            fam = [f for f in ("queries", "recycle", "exchange", "mixed", "collapse") if x.get(f)]
+            fam = [f for f in ("queries", "recycle", "exchange", "mixed", "collapse", "large") if x.get(f)]
             for f in fam:
                 c["family:" + f] += 1
             if not fam:
@@ -639,12 +803,78 @@ class C02(Prop):
             if rng.random() < 0.5:
                 seq += [["access", n], ["query", n, rng.choice(["contract", "all"])]]
             return seq
+        large = case.get("large")
+        last_split = [None]
+
+        def forced_split(kind):
+            def f():
+                op = gen_edit(rng, snapshot(drv.ttn), fresh, balanced=1.0, kinds=["split"], split_kind=kind)
+                last_split[0] = op
+                return op
+            return f
+
+        def forced_back():
+            # contract the two parts of the last split again (operands in either order, any identifier choice)
+            op = last_split[0]
+            if op is None:
+                return None
+            a = op[4] if op[4] is not None else "out_of_" + op[1]
+            b = op[5] if op[5] is not None else "in_of_" + op[1]
+            nodes = drv.ttn.nodes
+            if a not in nodes or b not in nodes:
+                return None
+            if rng.random() < 0.5:
+                a, b = b, a
+            new = rng.choice([None, fresh(), a, b])
+            if new is None and (a + "contr" + b) in set(nodes) - {a, b}:
+                new = fresh()
+            return ["contract", a, b, new]
+        def last_parts():
+            op = last_split[0]
+            if op is None:
+                return None
+            a = op[4] if op[4] is not None else "out_of_" + op[1]
+            b = op[5] if op[5] is not None else "in_of_" + op[1]
+            nodes = drv.ttn.nodes
+            if a not in nodes or b not in nodes:
+                return None
+            return (a, b) if nodes[a].parent == b else (b, a)
+
+        def forced_identity():
+            ab = last_parts()
+            return None if ab is None else ["insert_identity", ab[0], ab[1], fresh()]
+
+        def forced_replace():
+            ab = last_parts()
+            if ab is None:
+                return None
+            n = rng.choice(ab)
+            nl = len(drv.ttn.nodes[n].leg_permutation)
+            q = list(range(nl))
+            rng.shuffle(q)
+            return ["replace_tensor", n, q, [q.index(x) for x in range(nl)]]
+        forced = []
+        if large and not case.get("malformed"):
+            # round trips on the LARGEST node: near-square split by each of the three split kinds (random
+            # order), contracted back in between; then the random edits go on from there
+            order3 = [0, 1, 2]
+            rng.shuffle(order3)
+            for j, kd in enumerate(order3):
+                forced.append(forced_split(kd))
+                if j < 2:
+                    forced.append(forced_back)
+            # ... and on the bond the last split created (the largest one around): an identity insertion and a
+            # tensor replacement with a permutation on one of its ends, each with probability 1/2
+            if rng.random() < 0.5:
+                forced.append(forced_identity)
+            if rng.random() < 0.5:
+                forced.append(forced_replace)
         pending = []
         ops = case.get("ops")
         replay = ops is not None
         steps = []
         if not replay:
-            ops = gen_build(rng, case["nnodes"])
+            ops = gen_large_build(rng, large, bool(case.get("thorough"))) if large else gen_build(rng, case["nnodes"])
         build_len = sum(1 for o in ops if o[0] in ("add_root", "add_child")) if replay else len(ops)
         applied = []
         tokens = None
@@ -657,6 +887,12 @@ class C02(Prop):
             if k < len(ops):
                 op = ops[k]
                 k += 1
+            elif not replay and forced:
+                ever.update(drv.ttn.nodes)
+                handed.clear()
+                op = forced.pop(0)()
+                if op is None:
+                    continue
             elif not replay and pending:
                 op = pending.pop(0)
                 if op[0] == "query" and op[1] not in drv.ttn.nodes:
@@ -670,7 +906,7 @@ class C02(Prop):
                     if pending:
                         continue
                 op = gen_edit(rng, snapshot(drv.ttn), fresh, malformed=case["malformed"] and rng.random() < 0.4,
-                              **({"queries": True} if case.get("queries") else {}))
+                              **({"queries": True} if case.get("queries") else {}), **({"balanced": 0.5} if large else {}))
                 nedits += 1
             elif not replay and collapse[0]:
                 pending = gen_collapse()
@@ -680,7 +916,7 @@ class C02(Prop):
             if len(applied) == build_len and tokens is None:
                 tokens = {nid: [(nid, j) for j in range(nd.nopen_legs())] for nid, nd in drv.ttn.nodes.items()}
                 try:
-                    dense0 = dense_by_tokens(drv.ttn, tokens)
+                    dense0 = dense_by_tokens(drv.ttn, tokens, big=True)
                 except Exception as e:  # noqa
                     viol = viol or f"initial network not contractible: {e}"
             pre = snapshot(drv.ttn)
@@ -722,13 +958,17 @@ class C02(Prop):
             raws = {kk: np.array(v) for kk, v in drv.ttn._tensors.data.items()}
             steps.append({"ok": ok, "err": err, "snap": snap, "raws": raws, "exact": drv.exact})
             self._opstats[op[0] + (":ok" if ok else ":rejected")] += 1
+            if ok and op[0] == "split":
+                nb = self._new_bond(op, snap)
+                if nb is not None and nb > 100:
+                    self._opstats["split:" + ("QR", "SVD", "replace")[op[6]] + " new bond " + (">256" if nb > 256 else "101..256")] += 1
             if ok and viol is None and len(applied) > build_len:
                 w = well_formed(drv.ttn)
                 if w:
                     viol = f"after {op}: {w}"
                 elif dense0 is not None:
                     try:
-                        d = dense_by_tokens(drv.ttn, tokens)
+                        d = dense_by_tokens(drv.ttn, tokens, big=True)
                         if d is not None:
                             if d.shape != dense0.shape:
                                 viol = f"after {op}: open legs not where the documented rules place them (shape {d.shape} vs {dense0.shape})"
@@ -737,6 +977,17 @@ class C02(Prop):
                     except Exception as e:  # noqa
                         viol = f"after {op}: contraction with the documented leg order failed: {e}"
         return {"ops": applied, "steps": steps, "atoms": drv.atoms, "viol": viol, "build_len": build_len, "inapplicable": inapplicable}
+
+    @staticmethod
+    def _new_bond(op, snap):
+        """dimension of the bond a split created, read from the recorded shape of the new lower node"""
+        oid = op[4] if op[4] is not None else "out_of_" + op[1]
+        iid = op[5] if op[5] is not None else "in_of_" + op[1]
+        nodes = {n[0]: n for n in snap["nodes"]}
+        for a, b in ((oid, iid), (iid, oid)):
+            if a in nodes and b in nodes and nodes[a][1] == b:
+                return nodes[a][4][nodes[a][3][0]]
+        return None
 
     @staticmethod
     def _tokens_after(op, tokens, pre):
